@@ -39,6 +39,8 @@ type monitor struct {
 
 	// C05 automaton per node
 	c05 map[int]*c05state
+
+	invalid map[string]string // block id -> perturbation that makes it invalid (ground truth)
 }
 
 type c05state struct {
@@ -52,7 +54,7 @@ type c05state struct {
 }
 
 func newMonitor(s *sim) *monitor {
-	return &monitor{s: s, decided: map[int64][]byte{}, decidedBy: map[int64]int{}, audited: map[int]int64{}, signs: map[int][]signRec{}, c05: map[int]*c05state{}}
+	return &monitor{s: s, decided: map[int64][]byte{}, decidedBy: map[int64]int{}, audited: map[int]int64{}, signs: map[int][]signRec{}, c05: map[int]*c05state{}, invalid: map[string]string{}}
 }
 
 func (m *monitor) onCrash(n *simNode, ci *crashInfo) {}
@@ -86,6 +88,11 @@ func (m *monitor) onRestart(n *simNode) {
 	}
 }
 
+func (m *monitor) onByzProposal(p *byzProposal) {
+	if p.mut != "" && !validMutations[p.mut] {
+		m.invalid[bidStr(p.prop.BlockID)] = p.mut
+	}
+}
 func (m *monitor) onDeliverProposal(n *simNode, p *types.Proposal) {}
 func (m *monitor) onDeliverPart(n *simNode, h int64, p *types.Part)  {}
 func (m *monitor) onDeliverVote(n *simNode, v *types.Vote)           {}
@@ -108,6 +115,12 @@ func (s *sim) onSigned(n *simNode, chainID string, v *tmproto.Vote, p *tmproto.P
 		rec.ts, rec.sig = p.Timestamp.UnixNano(), fmt.Sprintf("%X", p.Signature)
 	}
 	s.env.Count("probe.signed")
+	if v != nil && len(v.BlockID.Hash) > 0 {
+		bid := fmt.Sprintf("%x/%d/%x", v.BlockID.Hash, v.BlockID.PartSetHeader.Total, v.BlockID.PartSetHeader.Hash)
+		if mut, bad := m.invalid[bid]; bad {
+			s.env.Report("C06", "invalid-block-accepted", "node %d signed a %v for a block that differs from a valid one only in '%s' (height %d round %d)", n.idx, v.Type, mut, v.Height, v.Round)
+		}
+	}
 	for _, o := range m.signs[n.idx] {
 		if o.h != rec.h || o.r != rec.r || o.typ != rec.typ {
 			continue
